@@ -179,23 +179,44 @@ def _case_replay(prop, path):
 CHECKS["C15"] = {"run": _c15_run, "replay": _case_replay}
 
 
+_ROUTING_RULES = {
+    "C02": "case = one routing probe (start proxy x slot, following MOVED like a cluster client; executed node observed at the stand-ins) on real "
+           "proxies synchronised by the real coordinator encoder (plain and gzip) from the real broker, at quiescent points (after create / "
+           "failover+replacement / rebalance / re-registration / completed scale-out and scale-in) and at held migration phases (PRECHECK held; "
+           "FINALSWITCH held); slots = every range boundary +-1, midpoints and random slots (thorough: additionally all 16384); non-trivial iff taken "
+           "during a migration phase or needing a redirect",
+    "C14": "case = one CLUSTER NODES (V1/V2) + CLUSTER SLOTS advertisement of an up proxy at an observation point of the C02 runs; non-trivial iff "
+           "taken during a migration phase",
+    "C07": "case = one control-plane run: admin changes (failover, rebalance, config, scale-out through a real migration, proxy restarts with empty "
+           "state) interleaved with rounds of two coordinators while seeded faults hit coordinator->proxy calls (drop, lost reply, duplicate, "
+           "delayed/reordered re-delivery) and coordinator->broker calls (drop, lost reply, duplicate) and coordinators crash mid-round; after the "
+           "faults stop a live coordinator runs rounds and the proxies are compared with the broker; non-trivial iff a fault, crash or restart took effect",
+    "C13": "case = one run in which the broker restarts from an earlier snapshot (any point after the cluster existed, including mid-migration) and "
+           "epoch recovery runs through the production arithmetic with the largest epoch seen on the proxies (hook H4), followed by coordinator rounds; "
+           "non-trivial by construction",
+}
+
+
 def _routing_run(prop, tier):
     t0 = time.time()
-    fam = fam_codec.routing_family(tier)
-    return _codec_finish(prop, tier, fam, t0,
-        "case = one routing probe (start proxy x slot, following MOVED like a cluster client; executed node observed at the stand-ins) or one "
-        "CLUSTER NODES/SLOTS advertisement, taken on real proxies synchronised by the real coordinator encoder (plain and gzip) from the real broker, "
-        "at quiescent points (after create / failover+replacement / rebalance / re-registration / completed scale-out and scale-in) and at held "
-        "migration phases (PRECHECK held; FINALSWITCH held); slots = every range boundary +-1, midpoints and random slots (thorough: additionally all 16384); "
-        "non-trivial iff taken during a migration phase or needing a redirect",
+    fam = dict(fam_codec.routing_family(tier))
+    fam["cases"] = fam["cases_by_prop"][prop]
+    fam["nontrivial"] = fam["nontrivial_by_prop"][prop]
+    fam["samples"] = fam["samples_by_prop"][prop] or fam["samples_by_prop"]["C02"]
+    if prop in ("C07", "C13"):
+        fam["mc"] = fam.get("mc_cp")
+    return _codec_finish(prop, tier, fam, t0, _ROUTING_RULES[prop],
         ["the served view recorded from the broker in the same trace is the reference (C01 covers its well-formedness)",
          "observations taken while some proxy's epoch differs from the served one are skipped (counted as skipped_unsynced)",
-         "key -> slot of probe keys is computed by the harness's own CRC16 (C09 covers the proxy's)"],
-        "all 16384 slots only in the thorough tier's all-slots runs")
+         "key -> slot of probe keys is computed by the harness's own CRC16 (C09 covers the proxy's)",
+         "fault schedules and histories are seeded samples; the design-level model (Routing.tla / ControlPlane.tla) is checked exhaustively for small constants"],
+        "all 16384 slots only in the thorough tier's all-slots runs; fault placements sampled")
 
 
 CHECKS["C02"] = {"run": _routing_run, "replay": _case_replay}
 CHECKS["C14"] = {"run": _routing_run, "replay": _case_replay}
+CHECKS["C07"] = {"run": _routing_run, "replay": _case_replay}
+CHECKS["C13"] = {"run": _routing_run, "replay": _case_replay}
 
 
 def _c09_run(prop, tier):
